@@ -639,6 +639,11 @@ impl Model {
                 }
             }
             DesKind::SymVer => {
+                // without a VERSYM section the query answers "no symbol versioning" and
+                // designates nothing at all
+                if !self.shdrs.iter().any(|s| s.typ == SHT_GNU_VERSYM) {
+                    return v;
+                }
                 for s in self.shdrs.iter() {
                     if s.typ == SHT_GNU_VERSYM {
                         v.push(*s);
